@@ -1573,7 +1573,9 @@ func AggrFunExpr(query *Query, current Map, expr sqlparser.AggrFunc, opts ...Exp
 		}
 		return result, nil
 	}
-	rs, ok := query.singletonExecutions[name]
+	// the memo is per call (function and arguments), not per function name
+	key := sqlparser.String(expr)
+	rs, ok := query.singletonExecutions[key]
 	if !ok {
 		slice, err := AggrFuncArgReader(query, map[string]any{"*": query.from}, sqlparser.Exprs{Exprs: expr.GetArgs()})
 		if err != nil {
@@ -1583,7 +1585,7 @@ func AggrFunExpr(query *Query, current Map, expr sqlparser.AggrFunc, opts ...Exp
 		if err != nil {
 			return nil, err
 		}
-		query.singletonExecutions[name] = result
+		query.singletonExecutions[key] = result
 		return result, nil
 	}
 	return rs, nil
